@@ -35,17 +35,31 @@ Module St.
 Record layout := { sl_n : nat; sl_rw : bool; sl_sr : bool; sl_sw : bool; sl_mr : list bool; sl_mw : list bool;
                    sl_lo : Z; sl_hi : Z }.
 
-(* est / emem: the struct / member i carries the read error of a fault (readerror is a HardwareError) *)
+(* est / emem: the struct / member i carries the read error of a fault (readerror is a HardwareError);
+   csc: coercion script of the fake hardware behind the user written write_<struct> (first matching entry):
+   (member i, requested value a, b) = the hardware stores b when a is requested for member i (it rounds to its resolution,
+   clamps to what it can do); no entry: the requested value is stored.  write_<struct> returns what the hardware holds. *)
 Record state := { hw : list Z; cst : list Z; cmem : list Z; frd : list bool; fwr : list bool;
-                  est : bool; emem : list bool; evs : list ev }.   (* evs newest first *)
+                  est : bool; emem : list bool; csc : list (nat * Z * Z); evs : list ev }.   (* evs newest first *)
 
-Definition set_hw s v := {| hw := v; cst := cst s; cmem := cmem s; frd := frd s; fwr := fwr s; est := est s; emem := emem s; evs := evs s |}.
-Definition set_cst s v := {| hw := hw s; cst := v; cmem := cmem s; frd := frd s; fwr := fwr s; est := false; emem := emem s; evs := evs s |}.
+Definition set_hw s v := {| hw := v; cst := cst s; cmem := cmem s; frd := frd s; fwr := fwr s; est := est s; emem := emem s; csc := csc s; evs := evs s |}.
+Definition set_cst s v := {| hw := hw s; cst := v; cmem := cmem s; frd := frd s; fwr := fwr s; est := false; emem := emem s; csc := csc s; evs := evs s |}.
 Definition set_cmem s (i : nat) v := {| hw := hw s; cst := cst s; cmem := v; frd := frd s; fwr := fwr s; est := est s;
-                                        emem := set_nth i false (emem s); evs := evs s |}.
-Definition set_faults s r w := {| hw := hw s; cst := cst s; cmem := cmem s; frd := r; fwr := w; est := est s; emem := emem s; evs := evs s |}.
+                                        emem := set_nth i false (emem s); csc := csc s; evs := evs s |}.
+Definition set_faults s r w := {| hw := hw s; cst := cst s; cmem := cmem s; frd := r; fwr := w; est := est s; emem := emem s; csc := csc s; evs := evs s |}.
+Definition set_csc s l := {| hw := hw s; cst := cst s; cmem := cmem s; frd := frd s; fwr := fwr s; est := est s; emem := emem s; csc := l; evs := evs s |}.
 Definition emit s (p : nat) (v : list Z) :=
-  {| hw := hw s; cst := cst s; cmem := cmem s; frd := frd s; fwr := fwr s; est := est s; emem := emem s; evs := (p, v) :: evs s |}.
+  {| hw := hw s; cst := cst s; cmem := cmem s; frd := frd s; fwr := fwr s; est := est s; emem := emem s; csc := csc s; evs := (p, v) :: evs s |}.
+
+(* what the hardware stores when [v] is requested for member [i] *)
+Fixpoint clookup (i : nat) (v : Z) (l : list (nat * Z * Z)) : Z :=
+  match l with
+  | [] => v
+  | (j, a, b) :: r => if Nat.eqb i j && Z.eqb v a then b else clookup i v r
+  end.
+Fixpoint coerce_from (k : nat) (l : list (nat * Z * Z)) (val : list Z) : list Z :=
+  match val with [] => [] | v :: r => clookup k v l :: coerce_from (S k) l r end.
+Definition coerce (l : list (nat * Z * Z)) (val : list Z) : list Z := coerce_from 0 l val.
 
 (* parameter ids: 0 the struct, S i member i; an error update of parameter p is the event (100 + p, []) *)
 
@@ -69,11 +83,11 @@ Definition ann_mem (quiet : bool) := if quiet then ann_mem_quiet else ann_mem_cb
 Definition ann_err_mem (i : nat) (s : state) : state :=
   if nth i (emem s) false then s
   else emit {| hw := hw s; cst := cst s; cmem := cmem s; frd := frd s; fwr := fwr s; est := est s;
-               emem := set_nth i true (emem s); evs := evs s |} (100 + S i) [].
+               emem := set_nth i true (emem s); csc := csc s; evs := evs s |} (100 + S i) [].
 Definition ann_err_struct (s : state) : state :=
   if est s then s
   else emit {| hw := hw s; cst := cst s; cmem := cmem s; frd := frd s; fwr := fwr s; est := true;
-               emem := emem s; evs := evs s |} 100 [].
+               emem := emem s; csc := csc s; evs := evs s |} 100 [].
 
 (* announceUpdate(struct, v) without callbacks (layout without combined methods) *)
 Definition ann_struct_quiet (v : list Z) (s : state) : state := emit (set_cst s v) 0 v.
@@ -143,6 +157,8 @@ Definition nr_write_struct (L : layout) (val : list Z) (s : state) : state * opt
   | (s1, None) => (s1, None)
   end.
 
+Definition in_range (L : layout) (v : Z) : bool := (sl_lo L <=? v)%Z && (v <=? sl_hi L)%Z.
+
 (* --- combined layout --- *)
 Definition rw_read_struct (L : layout) (s : state) : state * option (list Z) :=
   if sl_sr L then
@@ -150,11 +166,18 @@ Definition rw_read_struct (L : layout) (s : state) : state * option (list Z) :=
     else let v := hw s in (ann_struct_cb (sl_n L) v s, Some v)
   else (s, Some (cst s)).
 
+(* wrapped write_<struct> (value already validated).  User method: raises per fault script (nothing changes), else the
+   hardware stores the COERCED members and the method returns what the hardware holds; the wrapper validates the returned
+   dict (a member outside its range: RangeError after the hardware was set, nothing announced) and announces it.
+   Without user write_<struct> (only read_<struct> was written) the wrapper announces the requested value. *)
 Definition rw_write_struct (L : layout) (val : list Z) (s : state) : state * option (list Z) :=
-  if sl_sw L && nth 0 (fwr s) false then (s, None)
-  else
-    let s1 := if sl_sw L then set_hw s val else s in
-    (ann_struct_cb (sl_n L) val s1, Some val).
+  if sl_sw L then
+    if nth 0 (fwr s) false then (s, None)
+    else
+      let c := coerce (csc s) val in
+      let s1 := set_hw s c in
+      if forallb (in_range L) c then (ann_struct_cb (sl_n L) c s1, Some c) else (s1, None)
+  else (ann_struct_cb (sl_n L) val s, Some val).
 
 (* generated rfunc: read_<struct>()[member], then the wrapper announces the member (value or error) *)
 Definition rw_read_mem (L : layout) (i : nat) (s : state) : state * option Z :=
@@ -163,8 +186,9 @@ Definition rw_read_mem (L : layout) (i : nat) (s : state) : state * option Z :=
   | (s1, None) => (ann_err_mem i s1, None)
   end.
 
-(* generated wfunc: copy of the cached struct with the member replaced -> write_<struct>; returns read_<member>();
-   result: the value, or the error code *)
+(* generated wfunc: copy of the cached struct with the member replaced -> write_<struct>; RETURNS read_<member>(), i.e.
+   the value read back after the write (not the requested one: write_<struct> may have coerced it); the wrapper of
+   write_<member> announces the returned value.  Result: the value, or the error code *)
 Definition rw_write_mem (L : layout) (i : nat) (v : Z) (s : state) : state * res :=
   let d := set_nth i v (cst s) in
   match rw_write_struct L d s with
@@ -181,9 +205,8 @@ Inductive op :=
 | WriteS (v : list Z) | WriteM (i : nat) (v : Z)
 | SetS (v : list Z) | SetM (i : nat) (v : Z)   (* driver assignment  self.<param> = v *)
 | Hw (v : list Z)                           (* the hardware changes by itself *)
-| Fault (rd wr : list bool).                (* the fault script of the fake driver changes *)
-
-Definition in_range (L : layout) (v : Z) : bool := (sl_lo L <=? v)%Z && (v <=? sl_hi L)%Z.
+| Fault (rd wr : list bool)                 (* the fault script of the fake driver changes *)
+| Coerce (l : list (nat * Z * Z)).          (* the coercion script of the fake hardware changes *)
 
 Definition res_list (r : option (list Z)) (code : nat) : res := match r with Some v => ROk v | None => RErr code end.
 Definition res_one (r : option Z) (code : nat) : res := match r with Some v => ROk [v] | None => RErr code end.
@@ -206,6 +229,7 @@ Definition step (L : layout) (s : state) (o : op) : state * res :=
   | SetM i v => ((if sl_rw L then ann_mem_quiet i v s else ann_mem_cb i v s), ROk [])
   | Hw v => (set_hw s v, ROk [])
   | Fault r w => (set_faults s r w, ROk [])
+  | Coerce l => (set_csc s l, ROk [])
   end.
 
 Fixpoint zl_eqb (a b : list Z) : bool :=
@@ -228,7 +252,7 @@ Definition partial_abort (L : layout) (s : state) (o : op) : bool :=
 
 Definition init (L : layout) : state :=
   let z := repeat 0%Z (sl_n L) in
-  {| hw := z; cst := z; cmem := z; frd := []; fwr := []; est := false; emem := repeat false (sl_n L); evs := [] |}.
+  {| hw := z; cst := z; cmem := z; frd := []; fwr := []; est := false; emem := repeat false (sl_n L); csc := []; evs := [] |}.
 
 Definition run (L : layout) (ops : list op) : state := fold_left (fun s o => fst (step L s o)) ops (init L).
 
@@ -370,8 +394,23 @@ End Fe.
 (* ------------------------------------------------------------------------------------------------ *)
 Module Li.
 
-(* base parameter a with range [l_lo, l_hi]; which of a_min / a_max / a_limits exist; rng is a LimitsType parameter *)
-Record layout := { l_lo : Z; l_hi : Z; l_min : bool; l_max : bool; l_lim : bool }.
+(* The module class and its ancestors, in MRO order (most derived first; the classes of frappy itself define nothing that
+   concerns a and are left out).  One class:
+     c_acc    it derives from HasAccessibles, i.e. __init_subclass__ runs when the class is created (false: a plain mixin);
+     c_param  it defines the base parameter a;
+     c_user   the programmer wrote check_a in this class: 0 no; 1 a plausibility test only (raises RangeError when
+              value % 4 == 3, returns None); 2 (or more) the plausibility test followed by self.checkLimits(value, 'a')
+              (what the docstring of checkLimits asks for when no automatic call is wanted);
+     c_min / c_max / c_lim   it defines a_min / a_max / a_limits = Limit(). *)
+Record cls := { c_acc : bool; c_param : bool; c_user : nat; c_min : bool; c_max : bool; c_lim : bool }.
+
+(* base parameter a with range [l_lo, l_hi]; rng is a LimitsType parameter defined next to a *)
+Record layout := { l_lo : Z; l_hi : Z; l_classes : list cls }.
+
+(* a_min / a_max / a_limits is an accessible of the module *)
+Definition l_min (L : layout) : bool := existsb c_min (l_classes L).
+Definition l_max (L : layout) : bool := existsb c_max (l_classes L).
+Definition l_lim (L : layout) : bool := existsb c_lim (l_classes L).
 
 Record state := { va : Z; vmin : Z; vmax : Z; vlim : Z * Z; vrng : Z * Z; evs : list ev }.
 (* parameter ids: 0 a, 1 a_min, 2 a_max, 3 a_limits, 4 rng *)
@@ -385,6 +424,72 @@ Definition check_limits (L : layout) (s : state) (v : Z) : bool :=
   (if l_min L && l_max L && (vmax s <? vmin s)%Z then false
    else negb (l_min L && (v <? vmin s)%Z) && negb (l_max L && (vmax s <? v)%Z)).
 
+(* ---- which check_a functions the write wrapper calls: HasAccessibles.__init_subclass__, for every class of the hierarchy ----
+   inst j = the generated  lambda self, value: self.checkLimits(value, 'a')  has been put into the __dict__ of class j *)
+Inductive postfix := PLim | PMin | PMax.                (* for postfix in ('_limits', '_min', '_max') *)
+Definition defines (pf : postfix) (c : cls) : bool :=
+  match pf with PLim => c_lim c | PMin => c_min c | PMax => c_max c end.
+
+Definition cls0 : cls := {| c_acc := false; c_param := false; c_user := 0; c_min := false; c_max := false; c_lim := false |}.
+
+(* base = next(b for b in reversed(cls.__mro__) if limname in b.__dict__): the LAST class of the list l (positions k, k+1, ...)
+   that defines the limit; None: limname is not an accessible of the class *)
+Fixpoint last_def (pf : postfix) (l : list cls) (k : nat) : option nat :=
+  match l with
+  | [] => None
+  | c :: r => match last_def pf r (S k) with
+              | Some j => Some j
+              | None => if defines pf c then Some k else None
+              end
+  end.
+
+(* cname in base.__dict__ : a user written check_a, or the generated one put there earlier *)
+Definition in_dict (cs : list cls) (inst : list bool) (j : nat) : bool :=
+  negb (Nat.eqb (c_user (nth j cs cls0)) 0) || nth j inst false.
+
+(* body of the postfix loop for the class at position k (its MRO is the list from k on):
+   if limname in accessibles: base = ...; if cname not in base.__dict__: setattr(base, cname, <generated check>) *)
+Definition treat_postfix (cs : list cls) (k : nat) (inst : list bool) (pf : postfix) : list bool :=
+  match last_def pf (skipn k cs) k with
+  | Some j => if in_dict cs inst j then inst else set_nth j true inst
+  | None => inst
+  end.
+
+(* __init_subclass__ of the class at position k: the loop over the accessibles reaches pname = a only when a is an accessible
+   of this class *)
+Definition init_subclass (cs : list cls) (inst : list bool) (k : nat) : list bool :=
+  if c_acc (nth k cs cls0) && existsb c_param (skipn k cs)
+  then fold_left (treat_postfix cs k) [PLim; PMin; PMax] inst
+  else inst.
+
+(* the classes are created from the most ancestral one to the module class *)
+Definition install (cs : list cls) : list bool :=
+  fold_left (init_subclass cs) (rev (seq 0 (length cs))) (repeat false (length cs)).
+
+Inductive check := CkAuto | CkUser (kind : nat).
+
+(* cfuncs = tuple(filter(None, (b.__dict__.get(cname) for b in cls.__mro__))) of the module class (created last) *)
+Definition chain_at (cs : list cls) (inst : list bool) (j : nat) : list check :=
+  match c_user (nth j cs cls0) with
+  | 0 => if nth j inst false then [CkAuto] else []
+  | S k => [CkUser (S k)]
+  end.
+Definition chain (cs : list cls) : list check := flat_map (chain_at cs (install cs)) (seq 0 (length cs)).
+
+Definition plausible (v : Z) : bool := negb (Z.eqb (Z.modulo v 4) 3).
+
+Definition pass (L : layout) (s : state) (v : Z) (c : check) : bool :=
+  match c with
+  | CkAuto => check_limits L s v
+  | CkUser 0 => true
+  | CkUser 1 => plausible v
+  | CkUser _ => plausible v && check_limits L s v
+  end.
+
+(* for c in check_funcs: if c(self, value): break  -- no check function of the modelled kinds returns a true value, so
+   every one of them is called; the first one that raises refuses the write *)
+Definition run_checks (L : layout) (s : state) (v : Z) : bool := forallb (pass L s v) (chain (l_classes L)).
+
 Inductive op :=
 | WriteA (v : Z) | WriteMin (v : Z) | WriteMax (v : Z) | WriteLim (lo hi : Z) | WriteRng (lo hi : Z)
 | SetMin (v : Z) | SetMax (v : Z) | SetLim (lo hi : Z).     (* driver assignments to limit parameters: not range checked *)
@@ -395,7 +500,7 @@ Definition upd (s : state) (p : nat) (a mn mx : Z) (lim rng : Z * Z) (e : list Z
 Definition step (L : layout) (s : state) (o : op) : state * res :=
   match o with
   | WriteA v =>
-      if in_base L v && check_limits L s v
+      if in_base L v && run_checks L s v
       then (upd s 0 v (vmin s) (vmax s) (vlim s) (vrng s) [v], ROk [v]) else (s, RErr 1)
   | WriteMin v =>
       if negb (l_min L) then (s, RErr 9) else
